@@ -856,6 +856,18 @@ pub fn cb_action(uid: u32) {
         script = a.script.clone();
     }
     let by_clean = matches!(World::nearest_lib(&w.m.borrow()), Some(LibCall::Clean));
+    if by_clean {
+        let entitled = w.m.borrow().clean_stack.last().copied();
+        // (if the action run by clean() releases the last owner, the Cleaner dies inside clean() and runs the rest: legal)
+        let owner_alive = {
+            let m = w.m.borrow();
+            m.objs[m.actions[uid as usize].owner as usize].status == Status::Live
+        };
+        if entitled != Some(uid) && owner_alive {
+            w.fail("O-CLEAN.wrong-action", format!("clean() on the Cleanable of action {:?} ran action {} instead", entitled, uid));
+            return;
+        }
+    }
     w.stats.borrow_mut().bump(if by_clean { "action_run_by_clean" } else { "action_run_by_cleaner_drop" });
     let _fg = w.push_frame(FrameKind::Action(uid), false, false);
     w.sample_phase(false, "a cleaning action");
